@@ -255,6 +255,7 @@ class World:
         self.origin = []  # (parent index | None, producer kind)
         self.share_mans = []  # group id per object: objects whose maneuver list may legitimately be one object
         self.share_cov = []
+        self.probe = None
 
 
 def build_root(rootname):
@@ -295,6 +296,7 @@ def build_root(rootname):
 
 
 PRODUCERS = ("copy", "copy_form", "copy_frame", "copy_same", "pickle", "conv")
+PROBES = ("form_call",)  # call, compare the result, edit the result in place: no live object may change
 FAILING = ("bad_form", "bad_frame", "hill", "bad_center", "bad_ephem", "copy_bad_center")
 IN_PLACE = ("form", "frame", "w_idx", "w_name", "w_alias", "meta", "man_append", "man_edit", "cov_cell")
 
@@ -305,14 +307,14 @@ LEVELS = {
     # the full alphabet without the read of derived quantities (which doubles the hidden state of every object)
     "full-noinfos": (FORMS_FULL, FRAMES_FULL, 3, {"copy", "copy_form", "copy_frame", "copy_same", "pickle", "conv", "form",
                                                    "frame", "bad_form", "bad_frame", "hill", "bad_center", "bad_ephem",
-                                                   "copy_bad_center", "w_idx", "w_name", "w_alias", "meta", "man_append",
+                                                   "copy_bad_center", "form_call", "w_idx", "w_name", "w_alias", "meta", "man_append",
                                                    "man_edit", "cov_cell"}),
     "reduced": (FORMS_RED, FRAMES_RED, 2, {"copy", "copy_form", "copy_frame", "pickle", "conv", "form", "frame", "bad_form",
-                                            "bad_frame", "hill", "bad_center", "bad_ephem", "copy_bad_center", "read_infos", "w_idx", "w_name", "w_alias", "meta", "man_append",
+                                            "bad_frame", "hill", "bad_center", "bad_ephem", "copy_bad_center", "read_infos", "form_call", "w_idx", "w_name", "w_alias", "meta", "man_append",
                                             "man_edit", "cov_cell"}),
     "core": (FORMS_RED, FRAMES_RED, 2, {"copy", "copy_form", "copy_frame", "conv", "form", "frame", "hill", "w_idx",
                                          "man_append", "man_edit", "cov_cell"}),
-    "core-plus": (FORMS_RED, FRAMES_RED, 2, {"copy", "copy_form", "copy_frame", "conv", "form", "frame", "hill", "bad_center", "read_infos", "w_idx",
+    "core-plus": (FORMS_RED, FRAMES_RED, 2, {"copy", "copy_form", "copy_frame", "conv", "form", "frame", "hill", "bad_center", "read_infos", "form_call", "w_idx",
                                          "man_append", "man_edit", "cov_cell"}),
 }
 
@@ -334,6 +336,7 @@ def alphabet(w, level):
         ops += [["frame", i, F] for F in frames]
         ops += [["bad_form", i], ["bad_frame", i], ["hill", i], ["bad_center", i], ["bad_ephem", i], ["copy_bad_center", i]]
         ops.append(["read_infos", i])
+        ops += [["form_call", i, f] for f in forms]
         ops += [["w_idx", i], ["w_name", i], ["w_alias", i], ["meta", i]]
         if len(M["mans"]) < 3:
             ops.append(["man_append", i])
@@ -371,8 +374,8 @@ def model_step(w, op):
         ms[i] = S.set_frame(M, op[2], fmap, mu)
         if ms[i]["cov"] != M["cov"]:
             _propagate(w, ms, i, "cov", w.share_cov)
-    elif k == "read_infos":
-        pass  # reading derived quantities changes nothing
+    elif k == "read_infos" or k == "form_call":
+        pass  # reading derived quantities / calling the form as a function changes nothing
     elif k in FAILING:
         return ms, None, True
     elif k == "w_idx":
@@ -443,6 +446,8 @@ def real_step(w, op):
         x.frame = BAD_EPHEM
     elif k == "copy_bad_center":
         x.copy(frame=BAD_CENTER)
+    elif k == "form_call":
+        w.probe = x.form(x, op[2])  # documented callable: elements of x in another (or the same) form
     elif k == "read_infos":
         inf = x.infos
         inf.kep, inf.sphe, inf.r, inf.energy
@@ -560,10 +565,16 @@ def compare(o, M):
             out.append(("coords", M["coords"], o["coords"], float("inf")))
         else:
             ce = np.array(S.to_cart(M["coords"], M["form"], mu))
-            co = np.array(S.to_cart(o["coords"], M["form"], mu))
             rn, vn = math.sqrt(ce[:3] @ ce[:3]), math.sqrt(ce[3:] @ ce[3:])
-            err = max(float(np.max(np.abs(ce[:3] - co[:3])) / rn), float(np.max(np.abs(ce[3:] - co[3:])) / vn))
-            out.append(("coords?", M["coords"], o["coords"], err))
+            try:
+                # the OBSERVED numbers may be anything (e.g. cartesian values under a keplerian label)
+                co = np.array(S.to_cart(o["coords"], M["form"], mu))
+                err = max(float(np.max(np.abs(ce[:3] - co[:3])) / rn), float(np.max(np.abs(ce[3:] - co[3:])) / vn))
+                if not math.isfinite(err):
+                    raise ValueError("non-finite")
+                out.append(("coords?", M["coords"], o["coords"], err))
+            except (ValueError, OverflowError, ZeroDivisionError, FloatingPointError):
+                out.append(("inconsistent-values-for-form", M["coords"], o["coords"], None))
     if o["form"] == M["form"] and o["frame"] == M["frame"] and "infos" in o:
         if o["infos_bound"] is not True:
             out.append(("infos-binding", "infos describes the object it is read from", o["infos_bound"] if o["infos_bound"] is not None else o["infos"], None))
@@ -710,7 +721,7 @@ def step(w, op, case, t, checking=True):
     where = f"{op} on object {i} ({w.models[i]['cls']}, {w.models[i]['form']}, {w.models[i]['frame']}, origin {w.origin[i][1]})"
     raised = None
     new_obj = None
-    bits = exact_bits(w) if checking and k in PRODUCERS else None
+    bits = exact_bits(w) if checking and (k in PRODUCERS or k in PROBES) else None
     try:
         new_obj = real_step(w, op)
     except Exception as e:  # library raised
@@ -734,6 +745,8 @@ def step(w, op, case, t, checking=True):
     commit(w, op, ms, new_model, new_obj)
     n = len(w.objs)
     new_idx = n - 1 if new_obj is not None else None
+    if k == "form_call":
+        ok = _check_form_call(w, op, case, t, where)
     if bits is not None and exact_bits(w)[: len(bits)] != bits:
         # a method that returns a new object must leave every existing object bit-for-bit unchanged
         t.fail(f"{k}/receiver-changed/bits", "conversion methods that return a new object leave the receiver unchanged",
@@ -754,7 +767,7 @@ def step(w, op, case, t, checking=True):
             detail = f"{where}: object {j} field {fld}" + (f" error {mag:.3e}" if mag is not None else "")
             if j == new_idx:
                 sig, clause = f"{k}/result-{fld}", "the new object carries the same values and metadata (converted as requested)"
-            elif j == i and k in PRODUCERS:
+            elif j == i and (k in PRODUCERS or k in PROBES):
                 sig, clause = f"{k}/receiver-changed/{fld}", "conversion methods that return a new object leave the receiver unchanged"
             elif j == i and must_raise:
                 sig, clause = f"{k}/not-atomic/{fld}", "a form or frame change that fails leaves the object in its previous form/frame/values"
@@ -766,6 +779,36 @@ def step(w, op, case, t, checking=True):
             t.fail(sig, clause, case, exp, obs, detail)
         if not check_access(w.objs[j], t, case, where):
             ok = False
+    return ok
+
+
+def _check_form_call(w, op, case, t, where):
+    """The result of form(x, target) holds the elements of x in the target form; it is then edited in place (the
+    comparison of every live object with its model that follows shows whether that reached x)."""
+    S = sm()
+    mu = _W["mu"]
+    M = w.models[op[1]]
+    r = w.probe
+    w.probe = None
+    ok = True
+    try:
+        got = tuple(float(v) for v in np.array(r, dtype=float))
+        exp = S.convert_form(M["coords"], M["form"], op[2], mu)
+        ce, co = np.array(S.to_cart(exp, op[2], mu)), np.array(S.to_cart(got, op[2], mu))
+        rn, vn = math.sqrt(ce[:3] @ ce[:3]), math.sqrt(ce[3:] @ ce[3:])
+        err = max(float(np.max(np.abs(ce[:3] - co[:3])) / rn), float(np.max(np.abs(ce[3:] - co[3:])) / vn))
+        good = len(got) == 6 and math.isfinite(err) and t.margin("form(x, target) vs model (scaled)", err, TOL_COORD, case)
+    except (ValueError, OverflowError, ZeroDivisionError, FloatingPointError, TypeError) as e:
+        good, got, exp = False, repr(e), None
+    if not good:
+        t.fail("form_call/result-values", "form(x, target) returns the elements of x in the target form", case, exp, got, where)
+        ok = False
+    try:
+        r[0] = float(r[0]) * 0.5 + 1.0
+        r[4] = -float(r[4]) - 1.0
+    except Exception as e:
+        t.fail("form_call/result-not-editable", "the result of form(x, target) is an array of its own", case, "editable", repr(e), where)
+        ok = False
     return ok
 
 
@@ -781,6 +824,8 @@ def check_case(case, t):
         return check_access_case(case, t)
     if case.get("part") == "dyn":
         return dyn_check_case(case, t)
+    if case.get("part") == "boundary":
+        return bnd_check_case(case, t)
     w = rebuild(case["root"], case["history"][:-1], t)
     return step(w, case["history"][-1], case, t)
 
@@ -824,6 +869,8 @@ def explore(rootname, depth, level, first_ops, t):
                 # producers leave the sources untouched (just verified): drop the new object and go on
                 if ok and op[0] in PRODUCERS:
                     uncommit_last(w)
+                    fresh = True
+                elif ok and op[0] in PROBES:
                     fresh = True
                 else:
                     fresh = False
@@ -1359,6 +1406,153 @@ def dyn_explore(kind, depth, t):
 
 
 # ---------------------------------------------------------------------------
+# boundary states: form / frame changes that produce NaN or are refused (E2 over roots x operations, two steps deep)
+#
+# Exactly equatorial, exactly circular and on-axis states sit on the singularities of the element forms.  No reference
+# conversion exists there; the oracle is atomic consistency: either the assignment succeeds and the object then holds,
+# under the new label, bit for bit (NaN == NaN) what the pure conversion form(fresh, target) of a fresh plain copy
+# gives, or it raises and the object is bit for bit what it was (labels, values, metadata, covariance).
+
+ALL_FORMS = ["tle", "keplerian_circular", "keplerian_mean", "keplerian_mean_circular", "keplerian_eccentric", "keplerian",
+             "spherical", "cartesian", "equinoctial", "cylindrical"]
+BOUNDARY_ROOTS = {
+    "equatorial-cartesian": ("cartesian", (42164000.0, 0.0, 0.0, 0.0, 3074.66, 0.0)),
+    "equatorial-keplerian": ("keplerian", (42164000.0, 0.001, 0.0, 0.5, 0.3, 1.0)),
+    "circular-keplerian": ("keplerian", (7.2e6, 0.0, 0.9, 1.1, 0.0, 2.0)),
+    "circular-kepcirc": ("keplerian_circular", (7.2e6, 0.0, 0.0, 0.9, 1.1, 2.0)),
+    "circular-meancirc": ("keplerian_mean_circular", (7.2e6, 0.0, 0.0, 0.9, 1.1, 2.0)),
+    "on-axis-cartesian": ("cartesian", (0.0, 0.0, 7.2e6, 7.5e3, 0.0, 0.0)),
+    "polar-spherical": ("spherical", (7.2e6, 0.3, math.pi / 2, 10.0, 1e-3, 0.0)),
+}
+BND_OPS = [["form", f] for f in ALL_FORMS] + [["frame", F] for F in ("EME2000", "ITRF", "MOD")]
+
+
+def bnd_build(root, t=None):
+    from beyond.orbits import StateVector
+    from beyond.orbits.cov import Cov
+
+    _W["epoch"] = "d0"
+    form, coords = BOUNDARY_ROOTS[root]
+    x = StateVector(list(coords), _date(), form, "EME2000", name="BND", maneuvers=[_mk_man(MAN_SPECS[0])])
+    try:
+        x.cov = Cov(x, COV0, x.frame)
+    except Exception:
+        # attaching a covariance converts a private copy to cartesian; if the tree refuses that for a singular state the
+        # root simply goes without covariance (building a Cov is not an operation of this property)
+        if t is not None:
+            t.exclude("boundary root explored without covariance: Cov() refused the singular state")
+    return x
+
+
+def bnd_snapshot(x):
+    d = x._data
+    c = d.get("cov")
+    return dict(
+        form=d["form"].name, frame=d["frame"].name, values=np.array(x, dtype=float).tobytes(),
+        meta=tuple(sorted((k, v) for k, v in d.items() if k not in RESERVED)),
+        mans=tuple(man_val(m) for m in (d.get("maneuvers") or [])),
+        cov=None if c is None else (c.frame if isinstance(c.frame, str) else c.frame.name, np.array(c, dtype=float).tobytes()),
+        date=date_key(d["date"]),
+    )
+
+
+def bnd_apply(x, op):
+    if op[0] == "form":
+        x.form = op[1]
+    else:
+        x.frame = op[1]
+
+
+def bnd_step(x, op, case, t):
+    from beyond.orbits import StateVector
+
+    s0 = bnd_snapshot(x)
+    vals0 = np.array(x, dtype=float)
+    where = f"{op} on {s0['form']}/{s0['frame']} {vals0.tolist()}"
+    # what the conversion of a fresh plain copy gives (pure function for forms; same assignment for frames)
+    fresh = StateVector(list(vals0), x.date, s0["form"], s0["frame"])
+    exp, exp_exc = None, None
+    try:
+        if op[0] == "form":
+            exp = np.array(fresh.form(fresh, op[1]), dtype=float)
+        else:
+            fresh.frame = op[1]
+            exp = np.array(fresh, dtype=float)
+    except Exception as e:
+        exp_exc = e
+    raised = None
+    try:
+        bnd_apply(x, op)
+    except Exception as e:
+        raised = e
+    t.trans(2)
+    s1 = bnd_snapshot(x)
+    ok = True
+    if raised is not None:
+        t.outcome(("bnd", op[0], "refused"))
+        for f in s0:
+            if s1[f] != s0[f]:
+                obs = np.frombuffer(s1[f], dtype=float).tolist() if f == "values" else (s1[f] if f != "cov" else s1[f][0])
+                exp_ = vals0.tolist() if f == "values" else (s0[f] if f != "cov" else s0[f][0])
+                t.fail(f"boundary/{op[0]}/not-atomic/{f}", "a form or frame change that fails leaves the object in its previous form/frame/values",
+                       case, exp_, obs, f"{where}: raised {raised!r}")
+                ok = False
+        return ok
+    got = np.array(x, dtype=float)
+    t.outcome(("bnd", op[0], "nan" if np.isnan(got).any() else "finite"))
+    want = dict(s0)
+    want["form" if op[0] == "form" else "frame"] = op[1]
+    for f in ("form", "frame", "meta", "mans", "date"):
+        if s1[f] != want[f]:
+            t.fail(f"boundary/{op[0]}/wrong-{f}", "assignment changes exactly what it names", case, want[f], s1[f], where)
+            ok = False
+    if exp is not None and not np.array_equal(got, exp, equal_nan=True):
+        t.fail(f"boundary/{op[0]}/values-vs-pure-conversion", "label and values agree: the object holds what the conversion of its "
+               "previous elements gives", case, exp.tolist(), got.tolist(), where)
+        ok = False
+    if exp is None:
+        t.fail(f"boundary/{op[0]}/succeeds-where-conversion-raises", "label and values agree", case, repr(exp_exc), got.tolist(), where)
+        ok = False
+    if op[0] == "form" and s1["cov"] != s0["cov"]:
+        t.fail("boundary/form/wrong-cov", "assignment changes exactly what it names", case, s0["cov"] and s0["cov"][0],
+               s1["cov"] and s1["cov"][0], where)
+        ok = False
+    if op[0] == "frame" and s0["cov"] is not None and s0["cov"][0] == s0["frame"] and (s1["cov"] is None or s1["cov"][0] != op[1]):
+        t.fail("boundary/frame/wrong-cov-frame", "a covariance expressed in the state's frame follows the state", case, op[1],
+               None if s1["cov"] is None else s1["cov"][0], where)
+        ok = False
+    if not check_access(x, t, case, where):
+        ok = False
+    return ok
+
+
+def bnd_check_case(case, t):
+    x = bnd_build(case["root"], t)
+    for op in case["history"][:-1]:
+        try:
+            bnd_apply(x, op)
+        except Exception:
+            pass
+        t.trans()
+    return bnd_step(x, case["history"][-1], case, t)
+
+
+def bnd_explore(root, t):
+    for op1 in BND_OPS:
+        case = dict(part="boundary", root=root, history=[op1])
+        ok = bnd_check_case(case, t)
+        t.state(("bnd", root, tuple(op1)))
+        t.ev(("bnd", root, tuple(op1)))
+        if not ok:
+            continue
+        for op2 in BND_OPS:
+            case = dict(part="boundary", root=root, history=[op1, op2])
+            bnd_check_case(case, t)
+            t.state(("bnd", root, tuple(op1), tuple(op2)))
+            t.ev(("bnd", root, tuple(op1), tuple(op2)))
+
+
+# ---------------------------------------------------------------------------
 
 
 def units(tier, seed):
@@ -1404,6 +1598,9 @@ def units(tier, seed):
             first.append((cfg, dict(part="chain", chain=kind + "-reversed", roots=roots[::-1], levels=clevels)))
     for kind in DYN_KINDS:
         first.append((cfg, dict(part="dyn", kind=kind, depth=4 if tier == "quick" else 5)))
+    broots = list(BOUNDARY_ROOTS)
+    u.append((cfg, dict(part="boundary", roots=broots[:4])))
+    u.append((cfg, dict(part="boundary", roots=broots[4:])))
     # the long units go first so that the pool stays balanced
     u = first + u
     forms = ["tle", "keplerian_circular", "keplerian_mean", "keplerian_mean_circular", "keplerian_eccentric", "keplerian",
@@ -1425,6 +1622,10 @@ def run_unit(p, t):
         return
     if p["part"] == "dyn":
         dyn_explore(p["kind"], p["depth"], t)
+        return
+    if p["part"] == "boundary":
+        for r in p["roots"]:
+            bnd_explore(r, t)
         return
     if p["part"] == "chain":
         for r in p["roots"]:
